@@ -200,7 +200,7 @@ func faultProfile() chain.Profile {
 	p.Name = "fault"
 	p.Nodes = []string{"a01", "a02", "a03", "a04", "a05", "a06"}
 	p.Weights = map[string]int{"Blocks": 12, "StoreNew": 10, "StoreUpdate": 3, "Complete": 40, "ReportFaults": 20, "RecoverFaults": 16,
-		"Terminate": 1, "Claim": 2, "Renew": 2, "Migrate": 2, "Reset": 1}
+		"Terminate": 1, "Claim": 2, "Renew": 2, "Migrate": 4, "Reset": 1}
 	p.Sizes = []int64{1000, 5000}
 	p.Durs = []int64{3600}
 	p.Timeouts = []int64{20, 1800}
